@@ -56,8 +56,7 @@ func (self *Compiler) compileStmt(node ast.AnalyzedStatement) {
 		const defaultArgC = 2
 		hostCallArgc := defaultArgC + len(node.TriggerArguments.List)
 
-		for idx := len(node.TriggerArguments.List) - 1; idx >= 0; idx-- {
-			fmt.Printf("TRIGGER STATEMENT COMPILATION OF ARG: %s\n", node.TriggerArguments.List[idx].Expression)
+		for idx := 0; idx < len(node.TriggerArguments.List); idx++ {
 			self.compileExpr(node.TriggerArguments.List[idx].Expression)
 		}
 
